@@ -619,9 +619,6 @@ func (h *httpServerHandler) handleGet(ctx context.Context, w http.ResponseWriter
 		return
 	}
 
-	// Set SSE response headers
-	sseutil.SetStandardHeaders(w)
-	w.Header().Set(httputil.SessionIDHeader, session.GetID())
 	// The status line and headers are flushed only after this stream is registered (below): once the
 	// client has seen them, every notification for the session must find this stream.
 
@@ -632,6 +629,17 @@ func (h *httpServerHandler) handleGet(ctx context.Context, w http.ResponseWriter
 
 	// Check if there's already a GET SSE connection
 	h.getSSEConnectionsLock.Lock()
+	// The session may have been deleted since it was looked up above. DELETE removes the session first
+	// and then, under this lock, its stream: a stream registered for a session that is already gone
+	// would never be closed by anyone.
+	if _, still := h.sessionManager.getSession(sessionID); !still {
+		h.getSSEConnectionsLock.Unlock()
+		http.Error(w, "Session not found", http.StatusNotFound)
+		return
+	}
+	// Set SSE response headers
+	sseutil.SetStandardHeaders(w)
+	w.Header().Set(httputil.SessionIDHeader, session.GetID())
 	existingConn, exists := h.getSSEConnections[session.GetID()]
 	if exists {
 		// Cancel existing connection
